@@ -5,6 +5,7 @@ import os
 import warnings
 
 import vlib
+from props import c02_ext as X
 
 F = fractions.Fraction
 PID = 'C02'
@@ -13,7 +14,7 @@ TARGETS = ['C02/Props.vo', 'C02/Corr.vo']
 MODEL_TARGETS = ['C02/Corr.vo']
 PROPS_FILE = 'C02/Props.v'
 PROPS_MODULE = 'QV.C02.Props'
-CORR_IMPORTS = ['QV.C02.Spec', 'QV.C02.Model', 'QV.C02.Corr']
+CORR_IMPORTS = ['QV.C02.Spec', 'QV.C02.Model', 'QV.C02.Stack', 'QV.C02.Merge', 'QV.C02.Rewrite', 'QV.C02.Corr']
 CHECK_CORR = 'check_corr'
 CHECK_SPEC = 'check_spec'
 SHARD = 120
@@ -131,6 +132,8 @@ def free_params(t):
         s = set(inner) - set(t['pm'])
         for key, e in t['pm'].items():
             s |= e_vars(e)
+        for _, a, b in t.get('cs', []):
+            s |= e_vars(a) | e_vars(b)
         return s
     return free_params(t['body'])
 
@@ -283,7 +286,20 @@ class G:
                 mm[n] = 'm%d' % self.rng.randrange(NMEAS)
             elif r < 0.55:
                 mm[n] = None
-        return {'k': 'map', 'pm': pm, 'mm': mm, 'body': body}
+        cs = []
+        if self.rng.random() < 0.3:
+            for _ in range(self.rng.randint(1, 2)):
+                a = ['v', self.rng.choice(PARAMS[:4])]
+                r = self.rng.random()
+                if r < 0.55:        # always true for the generated values (0 <= value <= 3)
+                    cs.append([self.rng.random() < 0.5, a, e_c(self.rng.choice([4, 5, 100]))])
+                elif r < 0.8:       # depends on the assignment; equality on purpose
+                    cs.append([self.rng.random() < 0.5, a, self.rng.choice([['v', self.rng.choice(PARAMS[:4])],
+                                                                            e_c(self.rng.choice(TIMES))])])
+                else:
+                    cs.append([self.rng.random() < 0.5, ['+', a, e_c(self.rng.choice(TIMES))],
+                               ['*', e_c(2), ['v', self.rng.choice(PARAMS[:4])]]])
+        return {'k': 'map', 'pm': pm, 'mm': mm, 'cs': cs, 'body': body}
 
     def count_expr(self):
         r = self.rng.random()
@@ -462,6 +478,44 @@ def gen_cases(rng, tier, ctx):
         cases.append(g.prog_case(rng.choice([1, 2, 2, 3, 3, 4] if tier == 'quick' else [1, 2, 2, 3, 3, 4, 4, 5])))
     for i in range(n_loop):
         cases.append(g.loop_case(rng.choice([1, 2, 3])))
+    # round 2 kinds
+    n_trace, n_merge, n_rw, n_flat, n_vol = (160, 120, 160, 60, 100) if tier == 'quick' else (4000, 3000, 3000, 1500, 2500)
+    for i in range(n_trace):
+        c = g.prog_case(rng.choice([1, 2, 2, 3, 3] if tier == 'quick' else [1, 2, 3, 3, 4]))
+        c['kind'] = 'trace'
+        cases.append(c)
+    for i in range(n_merge):
+        cases.append(X.gen_merge(rng, PARAMS, NMEAS, e_c, TIMES))
+    for i in range(n_rw):
+        cases.append(X.gen_rw(rng, g))
+    for i in range(n_flat):
+        cases.append(X.gen_flat(rng, g))
+    k = 0
+    while k < n_vol:
+        c = g.prog_case(rng.choice([2, 2, 3, 3, 4]))
+        if 'rep' not in kinds(c['pt']) or not X.vol_ok_tree(c['pt'], children):
+            continue
+        c['kind'] = 'vol'
+        c['vol'] = sorted({'n0', 'n1'} & free_params(c['pt']))
+        if not c['vol']:
+            continue
+        c['env']['n0'] = str(rng.choice([1, 2, 3]))
+        c['env']['n1'] = str(rng.choice([1, 2, 3]))
+        c['env2'] = dict(c['env'], n0=str(rng.choice([1, 2, 3, 4])), n1=str(rng.choice([1, 2, 4, 6])))
+        # every volatile count at least 1 under both assignments: a repetition that is absent at build time (count 0)
+        # or is switched off later is a different story (see notes: volatile-update-not-followed)
+        counts = X.rep_counts(c['pt'], children)
+        envs = [{p: F(v) for p, v in e.items()} for e in (c['env'], c['env2'])]
+        if any(e_eval(ce, en) < 1 for ce in counts if e_vars(ce) & set(c['vol']) for en in envs):
+            continue
+        cases.append(c)
+        k += 1
+    rws = X.enum_rw()
+    if tier == 'thorough':
+        cases.extend(rws)
+    else:
+        rng.shuffle(rws)
+        cases.extend(rws[:80])
     if tier == 'thorough':
         cases.extend(_enum_small())
         cases.extend(_enum_loops())
@@ -519,8 +573,10 @@ def build_pt(t, singles):
             return ForLoopPT(go(t['body']), t['idx'], (e_str(t['start']), e_str(t['stop']), e_str(t['step'])),
                              measurements=ms_of(t), **kw)
         if k == 'map':
+            cs = ['%s %s %s' % (e_str(a), '<' if st else '<=', e_str(b)) for st, a, b in t.get('cs', [])]
             return MappingPT(go(t['body']), parameter_mapping={p: e_str(e) for p, e in t['pm'].items()},
-                             measurement_mapping=dict(t['mm']), allow_partial_parameter_mapping=True, **kw)
+                             measurement_mapping=dict(t['mm']), allow_partial_parameter_mapping=True,
+                             parameter_constraints=cs or None, **kw)
         if k == 'rev':
             return TimeReversalPulseTemplate(go(t['body']), **kw)
         if k == 'single':
@@ -567,6 +623,16 @@ def run_impl(case):
         with warnings.catch_warnings():
             warnings.simplefilter('ignore')
             with vlib.time_limit(20):
+                if case['kind'] == 'trace':
+                    return X.run_trace(case, build_pt, _num)
+                if case['kind'] == 'merge':
+                    return X.run_merge(case, e_str, _num)
+                if case['kind'] == 'rw':
+                    return X.run_rw(case, build_loop, _windows)
+                if case['kind'] == 'flat':
+                    return X.run_flat(case, build_loop, _windows)
+                if case['kind'] == 'vol':
+                    return X.run_vol(case, build_pt, _num, _windows)
                 if case['kind'] == 'loop':
                     loop = build_loop(case['loop'])
                     obs = {'dur': vlib.frac_json(loop.duration), 'ws': _windows(loop), 'wrev': None, 'wclean': None}
@@ -601,6 +667,16 @@ def run_impl(case):
                 rm = [[n, vlib.frac_json(vlib.to_fraction(b)), vlib.frac_json(vlib.to_fraction(l))]
                       for n, b, l in _render_loop(prog, render_measurements=True)[1]]
                 obs['wsr'] = sorted(rm, key=lambda w: (str(w[0]), F(w[1]), F(w[2])))
+                # ... and through the public entry point (needs a sample rate the duration is a multiple of)
+                from qupulse.plotting import render
+                if prog.duration > 0 and (prog.duration * 16).denominator == 1 and prog.duration <= 64:
+                    try:
+                        pub = render(prog, sample_rate=16, render_measurements=True)[2]
+                    except Exception as e:     # sampling problems are not this property's business
+                        pub = None
+                    if pub is not None:
+                        obs['wsp'] = sorted([[n, vlib.frac_json(vlib.to_fraction(b)), vlib.frac_json(vlib.to_fraction(l))]
+                                             for n, b, l in pub], key=lambda w: (str(w[0]), F(w[1]), F(w[2])))
                 prog.cleanup()
                 obs['wsc'] = _windows(prog)
                 obs['durc'] = vlib.frac_json(prog.duration)
@@ -643,7 +719,8 @@ def g_pt(t):
         mm = vlib.glist(lambda kv: '(%s, %s)' % (vlib.gN(meas_id(kv[0])),
                                                  'None' if kv[1] is None else '(Some %s)' % vlib.gN(meas_id(kv[1]))),
                         sorted(t['mm'].items()))
-        return '(Map %s %s %s)' % (pm, mm, g_pt(t['body']))
+        cs = vlib.glist(lambda c: '(%s, %s, %s)' % (vlib.gbool(c[0]), e_coq(c[1]), e_coq(c[2])), t.get('cs', []))
+        return '(Map %s %s %s %s)' % (pm, mm, cs, g_pt(t['body']))
     return '(%s %s)' % ({'rev': 'Rev', 'single': 'Single', 'pass': 'Pass'}[k], g_pt(t['body']))
 
 
@@ -656,9 +733,71 @@ def g_loop(j):
                                    g_windows(j['ms']), vlib.glist(g_loop, j['ch']))
 
 
+ECLASS = {'ParameterConstraintViolation': 'EConstraint', 'ParameterNotIntegerException': 'ENotInt',
+          'ValueError': 'EValue'}
+
+
+def g_env(env):
+    return vlib.glist(lambda kv: '(%s, %s)' % (vlib.gN(par_id(kv[0])), g_q(kv[1])), sorted(env.items()))
+
+
+def g_mm(mm):
+    if mm is None:
+        return '[]'
+    return vlib.glist(lambda kv: '(%s, %s)' % (vlib.gN(meas_id(kv[0])),
+                                               'None' if kv[1] is None else '(Some %s)' % vlib.gN(meas_id(kv[1]))),
+                      sorted(mm.items()))
+
+
+def g_ev(e):
+    k = e[0]
+    if k == 'measure':
+        return '(EMeasure %s)' % g_windows(e[1])
+    if k == 'play':
+        return '(EPlay %s)' % g_q(e[1])
+    if k == 'seq_enter':
+        return '(ESeqEnter %s)' % g_windows(e[1])
+    if k == 'rep_enter':
+        return '(ERepEnter %s %s)' % (vlib.gnat(e[1]), g_windows(e[2]))
+    return {'seq_exit': 'ESeqExit', 'rep_exit': 'ERepExit', 'rev_enter': 'ERevEnter', 'rev_exit': 'ERevExit',
+            'sub_enter': 'ESubEnter', 'sub_exit': 'ESubExit'}[k]
+
+
+def g_frame(f):
+    if f[0] == 'g':
+        return '(OGuard %s)' % g_windows(f[1])
+    return '(OLoop %s %s %s %s)' % (vlib.gnat(f[1]), g_windows(f[2]), vlib.gnat(f[3]), g_q(f[4]))
+
+
 def to_coq(case, obs):
     if 'crash' in obs or 'hang' in obs:
         return 'CCrash'
+    kind = case['kind']
+    if kind == 'merge':
+        pm = lambda d: vlib.glist(lambda kv: '(%s, %s)' % (vlib.gN(par_id(kv[0])), e_coq(kv[1])), sorted(d.items()))
+        cs = vlib.glist(lambda c: '(%s, %s, %s)' % (vlib.gbool(c[0]), e_coq(c[1]), e_coq(c[2])), case['cs1'])
+        mmobs = vlib.glist(lambda kv: '(%s, %s)' % (vlib.gN(meas_id(kv[0])),
+                                                    'None' if kv[1] is None else '(Some %s)' % vlib.gN(meas_id(kv[1]))),
+                           obs['mm'])
+        pobs = vlib.glist(lambda kv: '(%s, %s)' % (vlib.gN(par_id(kv[0])), g_q(kv[1])), obs['vals'])
+        return '(CMerge %s %s %s %s %s %s %s %s %s %s %s %s)' % (
+            vlib.glist(lambda n: vlib.gN(meas_id(n)), case['names']), vlib.glist(lambda p: vlib.gN(par_id(p)), case['pars']),
+            pm(case['pm1']), g_mm(case['mm1']), cs, vlib.gbool(case['ident']), pm(case['pm2']), g_mm(case['mm2']),
+            g_env(case['env']), vlib.gbool(obs['merged']), mmobs, pobs)
+    if kind == 'rw':
+        a = obs['after']
+        o = 'None' if a is None else '(Some (%s, %s))' % (g_q(a['dur']), g_windows(a['ws']))
+        return '(CRw %s %s %s %s %s)' % (X.g_rw(case['op']), g_loop(case['loop']), g_q(obs['dur0']),
+                                         g_windows(obs['ws0']), o)
+    if kind == 'flat':
+        return 'CPyOnly'
+    if kind == 'trace' and 'trace' in obs:
+        tr = vlib.glist(lambda ev: '(%s, %s)' % (g_ev(ev[0]), vlib.glist(lambda b: vlib.glist(g_frame, b), ev[1])),
+                        obs['trace'])
+        return '(CTrace %s %s %s %s)' % (g_pt(case['pt']), g_env(case['env']), g_mm(case['mm']), tr)
+    if kind == 'vol' and 'ws2' in obs:
+        return '(CVol %s %s %s %s %s)' % (g_pt(case['pt']), g_env(case['env']), g_env(case['env2']), g_mm(case['mm']),
+                                          g_windows(obs['ws2']))
     if case['kind'] == 'loop':
         opt = lambda w: 'None' if w is None else '(Some %s)' % g_windows(w)
         return '(CLoop %s %s %s %s %s %s)' % (g_loop(case['loop']), g_q(obs['dur']), g_windows(obs['ws']),
@@ -671,7 +810,7 @@ def to_coq(case, obs):
                                                  'None' if kv[1] is None else '(Some %s)' % vlib.gN(meas_id(kv[1]))),
                         sorted(case['mm'].items()))
     if 'rejected' in obs:
-        o = 'ORejected'
+        o = '(ORejected %s)' % ECLASS.get(obs['rejected'], 'EOther')
     elif 'none' in obs:
         o = 'ONone'
     else:
@@ -686,6 +825,15 @@ def _loop_depth(j):
 
 
 def nontrivial(case, obs):
+    kind = case['kind']
+    if kind == 'trace':
+        return len(obs.get('trace', [])) >= 6
+    if kind == 'merge':
+        return bool(case['mm1'] and case['mm2']) or bool(case['pm1'] and case['pm2'])
+    if kind in ('rw', 'flat'):
+        return obs.get('after') is not None and len(obs['ws0']) >= 2
+    if kind == 'vol':
+        return len(obs.get('ws2', [])) >= 2 and obs.get('ws1') != obs.get('ws2')
     if 'ws' not in obs or len(obs['ws']) < 2:
         return False
     if case['kind'] == 'loop':
@@ -695,9 +843,28 @@ def nontrivial(case, obs):
 
 
 def histogram_keys(case, obs):
-    keys = [case['kind'], 'obs:' + ('rejected' if 'rejected' in obs else 'none' if 'none' in obs else
+    kind = case['kind']
+    if kind in ('merge', 'rw', 'flat'):
+        keys = [kind]
+        if kind == 'merge':
+            keys.append('merge:' + ('crash' if 'crash' in obs else 'merged' if obs.get('merged') else 'kept'))
+        else:
+            keys.append('%s:%s:%s' % (kind, case['op'][0], 'crash' if 'crash' in obs or 'hang' in obs else
+                                      'refused' if obs.get('after') is None else
+                                      'same' if sorted(map(tuple, obs['after']['ws'])) == sorted(map(tuple, obs['ws0']))
+                                      else 'windows-differ'))
+        return keys
+    keys = [case['kind'], 'obs:' + ('rejected:' + obs['rejected'] if 'rejected' in obs else
+                                    'none' if obs.get('none') else
                                     'crash' if 'crash' in obs or 'hang' in obs else 'program')]
-    if case['kind'] == 'prog':
+    if kind == 'trace' and 'trace' in obs:
+        keys.append('trace-len:%s' % ('0' if not obs['trace'] else '1-5' if len(obs['trace']) <= 5 else
+                                      '6-20' if len(obs['trace']) <= 20 else '21+'))
+        keys.append('trace-maxbuilders:%d' % max([len(e[1]) for e in obs['trace']] + [1]))
+        keys.append('trace-maxstack:%d' % min(6, max([len(b) for e in obs['trace'] for b in e[1]] + [1])))
+    if kind == 'vol' and 'ws2' in obs:
+        keys.append('vol:' + ('follows' if obs['ws2'] == obs.get('ref') else 'stale'))
+    if case['kind'] in ('prog', 'trace', 'vol'):
         ks = kinds(case['pt'])
         keys += ['node:' + k for k in sorted(set(ks))]
         keys.append('depth:%d' % min(depth(case['pt']), 8))
@@ -715,14 +882,48 @@ def histogram_keys(case, obs):
     return keys
 
 
+def _name_len(ws):
+    return sorted((w[0], F(w[2])) for w in ws)
+
+
 def classify(case, obs):
+    kind = case['kind']
+    if kind == 'rw' and obs.get('after') is not None and case['op'][0] in ('unroll', 'unroll_children'):
+        # known: only own windows of the unrolled loop are missing, nothing else changed
+        rest = list(map(tuple, obs['ws0']))
+        for w in map(tuple, obs['after']['ws']):
+            if w not in rest:
+                return None
+            rest.remove(w)
+        loop = case['loop']
+        target = loop if case['op'][0] == 'unroll_children' else loop['ch'][case['op'][1]]
+        own = {m[0] for m in target['ms']}
+        if rest and all(w[0] in own for w in rest) and F(obs['after']['dur']) == F(obs['dur0']):
+            return 'rewrite-drops-own-measurements'
+        return None
+    if kind == 'flat':
+        v = X.flat_verdict(case, obs)
+        return 'rewrite-drops-own-measurements' if v and v[0] == 'known' else None
+    if kind == 'vol' and 'ws2' in obs and obs.get('ref') is not None:
+        # known: after the update every window is still reported once per (new) execution with its length, but windows
+        # placed behind a volatile repetition keep the offset they were given at build time
+        if obs['ws2'] != obs['ref'] and _name_len(obs['ws2']) == _name_len(obs['ref']) and obs['ws2r'] == obs['ws2']:
+            return 'volatile-update-stale-offsets'
     return None
 
 
 def py_spec(case, obs):
-    """the two observation points of the property report the same windows (the first one is judged in Coq)"""
+    """the observation points of the property report the same windows (the first one is judged in Coq)"""
     if 'wsr' in obs and obs['wsr'] != obs['ws']:
-        return 'plotting.render reports other measurement windows than Loop.get_measurement_windows()'
+        return 'plotting._render_loop reports other measurement windows than Loop.get_measurement_windows()'
+    if 'wsp' in obs and obs['wsp'] != obs['ws']:
+        return 'plotting.render(..., render_measurements=True)[2] differs from Loop.get_measurement_windows()'
+    if case['kind'] == 'vol' and 'ws2r' in obs and obs['ws2r'] != obs['ws2']:
+        return 'after a volatile update plotting reports other windows than Loop.get_measurement_windows()'
+    if case['kind'] == 'flat':
+        v = X.flat_verdict(case, obs)
+        if v:
+            return v[1]
     return None
 
 
